@@ -261,6 +261,25 @@ def wl_random(ctx, rng, case):
                 fn(bad)
             except Exception:
                 ctx.count("refused_hash_calls")
+    # ... and refused DEPTHS (a float that equals an integer, a fraction, a string, None) in between calls with other depths: the answers for
+    # the integer depths around them are what they were before
+    for name, hf in strat.items():
+        k0 = keys[0]
+        before = {d: list(hf(k0, d)) for d in (1, 2, 3, 5)}
+        for bad in (3.0, 2.5, "3", None, 5.0):
+            hf(k0, rng.choice([1, 2, 4, 6]))
+            try:
+                hf(k0, bad)
+            except Exception:
+                ctx.count("refused_hash_calls")
+            for d in (3, 5, 2, 1):
+                ctx.counters["oracle_evaluations"] += 1
+                try:
+                    now = list(hf(k0, d))
+                except Exception as e:
+                    ctx.fail(f"{name}(key, {d}) raises {type(e).__name__} after a call with depth {bad!r} was refused", key=k0)
+                if now != before[d]:
+                    ctx.fail(f"{name}(key, {d}) answers differently after a call with depth {bad!r} was refused", key=k0)
     for k in keys:
         kb = gen.to_bytes(k)
         for name, hf in strat.items():
